@@ -30,6 +30,14 @@ pub open spec fn decode(s: Seq<char>) -> Seq<char> decreases s.len() {
 """
 
 
+def candidates(f):
+    """every escape the property names, in a string literal and as a character constant: the bytes the compiler stores"""
+    src = 'const char s[] = "\\a\\b\\t\\n\\v\\f\\r\\\\z\\"q"; const char t[] = "a\\0b"; unsigned char x;\nvoid main() { x = \'\\f\'; x = \'\\v\'; }\n'
+    return [{"source": src, "args": ["-O0"], "expect": {"panic": False, "stdout_contains": "ARRAY s size=12 = 7 8 9 10 11 12 13 92 122 34 113 0 "}, "note": "control escapes, backslash, quote"},
+            {"source": src, "args": ["-O0"], "expect": {"panic": False, "stdout_contains": "ARRAY t size=4 = 97 0 98 0 "}, "note": "embedded NUL"},
+            {"source": src, "args": ["-O0"], "expect": {"panic": False, "stdout_contains": "LDA #12\n\tSTA x\n\tLDA #11"}, "note": "character constants"}]
+
+
 def build(repo):
     u = Unit(NAME, TOOL, PROPS, ["src/compile.rs: compile_quoted_string_ex", "src/compile.rs: CompilerState::compile_quoted_string (statements after the loop, R8)", "src/cpp.rs: process() (string-literal extraction window: marker number, counter, table push, R8)"],
              assumptions=["A-vstd: prophetic iterator specification of str::chars()", "A-spec: char::from_u32 returns Some(v as char) for scalar values",
@@ -38,15 +46,20 @@ def build(repo):
     comp = SourceFile(repo, "src/compile.rs")
     q = comp.fn("compile_quoted_string_ex")
     cuts = [q]
+    consts, const_lits = common.referenced_consts(comp, q)
+    cuts += consts
+    nfind = common.r15_find_char(q)
     while_let_to_loop(q, 1, r"^while let Some\(c\) = i\.next\(\)$")
     q.set_header("""#[verifier::exec_allows_no_decreases_clause]
 fn compile_quoted_string_ex(s: &str) -> (v: String)
     ensures v@ == decode(s@), //@ C09:decode
 """, expect_sig="fn compile_quoted_string_ex(s: &str) -> String")
+    # what a referenced constant text holds is known inside the loop as well (plain ASCII texts only)
+    const_inv = "".join("            %s@ =~= seq![%s],\n" % (n, ", ".join("'%s'" % ch for ch in l)) for n, l in const_lits if re.match(r"^[A-Za-z0-9 _.,;:+*/=<>-]*$", l))
     q.loop_spec(1, r"^loop /\*@R10\*/$", """
         invariant_except_break v@ + decode(i.remaining()) == decode(s@), //@ C09:decode-inv
             i.obeys_prophetic_iter_laws(),
-        ensures v@ == decode(s@), //@ C09:decode-exit
+""" + const_inv + """        ensures v@ == decode(s@), //@ C09:decode-exit
 """)
     q.sub(r"\{ let __o = i\.next\(\);", "{\n        let ghost r0 = i.remaining();\n        let __o = i.next();", "hint-placement (ghost only)", expect=(0, 1))
     q.before(r"match i\.next\(\) \{", "            let ghost r1 = i.remaining();")
@@ -109,7 +122,9 @@ fn literal_window(context: &mut Context, lit: String, state: State, in_multiline
     __marker
 }
 """ % win.text
-    text = common.PRELUDE + common.header_comment(NAME, cuts) + "verus! {\n" + SPECS + q.text + "\n" + tail_fn + win_fn + common.CANARY + "\n} // verus!\n"
+    if const_lits:
+        q.body_start("    proof { %s }" % " ".join('reveal_strlit("%s");' % l for _, l in const_lits))
+    text = common.PRELUDE + common.header_comment(NAME, cuts) + "verus! {\n" + SPECS + (common.STR_FIND_SHIM if nfind else "") + "\n".join(c.text for c in consts) + "\n" + q.text + "\n" + tail_fn + win_fn + common.CANARY + "\n} // verus!\n"
     u.text[None] = text
     u.rewrites = common.collect_rewrites(cuts)
     u.dropped = ["R10: while-let desugared to loop/match (Rust reference definition)"]
